@@ -45,6 +45,16 @@ class Exits:
         self.brk |= other.brk; self.cont |= other.cont; self.ret |= other.ret; self.exc |= other.exc
 
 
+class RaiseExc:
+    """a client may return ``RaiseExc(state, 'TypeError')`` from ``event``: the event raises (typed) instead of
+    continuing; the exception propagates through the handlers of the inlined call chain"""
+
+    __slots__ = ("state", "name")
+
+    def __init__(self, state, name):
+        self.state, self.name = state, name
+
+
 class Ctx:
     """what a client sees with every event"""
 
@@ -123,7 +133,11 @@ class Interp:
         out = set()
         for s in S:
             self.events += 1
-            out.update(self.client.event(kind, node, s, ctx))
+            for r in self.client.event(kind, node, s, ctx):
+                if isinstance(r, RaiseExc):
+                    self._pending_exc = self._pending_exc | {(r.state, r.name)}
+                else:
+                    out.add(r)
         self._note(out)
         return out
 
